@@ -50,6 +50,9 @@ fn main() {
         c.layer = args[8].clone();
         c.scale_pct = args[9].parse().unwrap_or(100);
         c.known_active = runner::known_active_for(id);
+        if c.layer != "primary" {
+            c.disable_distinct_tracking();
+        }
         if let Some(j) = args.get(10) {
             c.journal = std::fs::OpenOptions::new()
                 .create(true)
